@@ -217,5 +217,5 @@ def run_history(ops, mode):
             engine.set_options({k: (conv(v, exact) if k != "algorithm" else v) for k, v in op[1].items()})
         elif op[0] == "compute":
             fl, lls, _, _ = run_force(None, acc, mode, engine=engine, nodes=nodes, want_layer_lines=False)
-            out.append((fl, placed_labels(nodes)))
+            out.append((fl, placed_labels(nodes), dict(acc), [(n.idealPos, n.width) for n in nodes]))
     return out
